@@ -89,8 +89,11 @@ func (c *Ctx) roles(r *Report) *Roles {
 			if !ok {
 				return
 			}
-			if getEvent != nil && ci.Common().StaticCallee() == getEvent {
-				gets = true
+			if callee := ci.Common().StaticCallee(); getEvent != nil && callee != nil {
+				// directly, or through a helper of the package that hands the pooled event back (newEvent → GetEvent)
+				if callee == getEvent || (callee.Pkg == c.LogS && callee != f && types.Identical(resultType(callee), resultType(getEvent)) && c.reachesWithin(callee, getEvent, 1)) {
+					gets = true
+				}
 			}
 			if ci.Common().IsInvoke() && ci.Common().Method.Name() == "Append" && c.moduleIface(ci.Common().Value.Type()) {
 				appends = true
@@ -571,4 +574,12 @@ func pkgFuncs(p *ssa.Package) []*ssa.Function {
 	sort.Slice(out, func(i, j int) bool { return out[i].String() < out[j].String() })
 	pkgFuncsMemo[p] = out
 	return out
+}
+
+// resultType: the single result type of a function (nil otherwise).
+func resultType(f *ssa.Function) types.Type {
+	if f == nil || f.Signature.Results().Len() != 1 {
+		return types.Typ[types.Invalid]
+	}
+	return f.Signature.Results().At(0).Type()
 }
